@@ -32,6 +32,18 @@ CLAIMED = {
             "The id handed out is the return value of one atomic fetch_add (a fact about all interleavings), bit structure of pack/tag/file_id with const-evaluated masks, inventory of statics (no static mut, only atomics/OnceLock caches whose initialisers cannot reach the counter), and the deep interior-mutability walk from Schema/ExecutableDocument; thorough tier adds Send/Sync and E0596 witnesses.",
             "Assumes std atomics are atomic; uniqueness holds until the 63-bit counter wraps (reset edge), as the property states.",
             "who-calls + provenance of a single atomic RMW, const evaluation, type-structure walk (rustc facts); compile_fail witnesses", True),
+    "C22": ("other",
+            "Inventory of every order-observing operation on std HashMap/HashSet in the three crates against a reviewed table, confinement of seeded hash values and pointer addresses (taint), and absence of clock/env/thread/OS-randomness calls: a fact about all hash seeds, which no number of runs in one process can sample.",
+            "Decides the absence of the known channels from per-process state to outputs; does not compare outputs. indexmap insertion order and std sort determinism are trusted.",
+            "resolved-callee inventory + value-flow (taint) rules over rustc MIR; type facts of ordered collections", False),
+    "C25": ("other",
+            "Comparator consistency between the direct and the memoised path (contradiction rule), accumulator symmetry across the arms of the Selection match on every CFG path, and the relative-depth provenance of the memo.",
+            "Decides the mechanism that makes the verdict fragment-independent; the set of list-valued fields is compared with the property's list.",
+            "comparator normalisation + must-pass-through per match arm + symbolic provenance over rustc MIR", False),
+    "C27": ("other",
+            "Closed allow-list of async primitives over all resolved call sites (no combinator that polls two futures, no manual Future impl, no hand-written poll), shared executor path for sync and async, and await-inside-loop order over the document-ordered IndexMap: a fact about every schedule.",
+            "futures::StreamExt::next / now_or_never / stream::iter are trusted to poll exactly their one underlying future/stream.",
+            "who-calls allow-list over resolved callees (MIR) + HIR await-in-loop structure + call-graph facts", False),
 }
 
 NOT_APPLICABLE = {
